@@ -83,6 +83,7 @@ func MustFindFunc(name string, pkgs ...*Package) *FuncInfo {
 func FindFunc(name string, pkgs ...*Package) (fi *FuncInfo) {
 	// private indicates non-exported okay, referenced with ::
 	pkg, vname, private := UnpackName(name)
+	qualified := pkg != nil
 	if pkg == nil {
 		pkg = CurrentPackage
 		if 0 < len(pkgs) {
@@ -94,7 +95,12 @@ func FindFunc(name string, pkgs ...*Package) (fi *FuncInfo) {
 		fi = pkg.funcs[vname]
 	}
 	if fi != nil {
-		if private || fi.Export || CurrentPackage == fi.Pkg {
+		if qualified && !private {
+			// pkg:name is for what pkg itself exports only.
+			if fi.Export && (fi.Pkg == pkg || pkg.Imports[vname] != nil) {
+				return fi
+			}
+		} else if private || fi.Export || CurrentPackage == fi.Pkg {
 			return fi
 		}
 		fi = nil
